@@ -1,10 +1,13 @@
 #!/bin/sh
-# tools/mutcheck.sh <patch.diff> <prop> [<prop> ...] : apply a seeded change to /repo, run the quick checks, undo it
+# tools/mutcheck.sh <patch.diff> <prop> [<prop> ...] : apply a seeded change to a scratch clone of /repo (never to /repo itself),
+# run the quick checks against it (VERIF_REPO), print the verdicts, remove the clone. Evidence/replays of these runs go to the scratch dir.
 d="$1"; shift
-git -C /repo apply "$d" || exit 3
+s=$(mktemp -d /tmp/verif-mut-XXXXXX)
+git clone -q /repo "$s/repo" && cp /repo/Cargo.lock "$s/repo/Cargo.lock" || exit 3
+git -C "$s/repo" apply "$d" || { rm -rf "$s"; exit 3; }
 for p in "$@"; do
-  out=$(/verif/bin/check "$p" 2>&1); rc=$?
-  echo "== $p exit=$rc"; echo "$out" | grep -E "^(VIOLATION|INCONCLUSIVE|KNOWN|OK)" | cut -c1-260 | head -6
+  out=$(VERIF_REPO="$s/repo" VERIF_OUT="$s/out" /verif/bin/check "$p" 2>&1); rc=$?
+  echo "== $p exit=$rc"; echo "$out" | grep -E "^(VIOLATION|INCONCLUSIVE|OK)" | cut -c1-260 | head -6
   echo "$out" | grep -E "^  " | cut -c1-400 | head -3
 done
-git -C /repo checkout -- .
+rm -rf "$s"
